@@ -41,6 +41,46 @@ CHECKS = {
         mandatory=dict(quick=["dup", "unknown", "supersede_pending", "timeout_fire", "rebuild", "all_ready_fire", "parts_1", "parts_10"]),
         assumptions=["firing is looked for during a bounded window (30 ms grace after the last operation, 1.5 s margin around timeouts); monotonic time only as a lower bound"],
     ),
+    "C02": dict(
+        parts=[dict(pkg="table", run="^TestC02$",
+                    quick=dict(shards=4, checks=150, timeout=300),
+                    thorough=dict(shards=16, checks=2500, timeout=1800))],
+        rule="cases = generated histories with explicit seat layouts (gaps, sitting-out and busted players between participants, dead button / dead small blind after departures and busts), 2..10 participants, both rules, newcomers arriving and non-participants leaving while a hand runs; oracle: the hand's list names every dealt-in player once, is a rotation of the clockwise seat order, entry i starts with M[i]'s bankroll at open, the mapping is unchanged in every later snapshot, every accepted action was applied by the backend to the entry of its submitter, entry i's result is credited to M[i] only; non-trivial = a hand with a gap and (dead dealer | dead SB | sitting-out player between participants) or a membership change during the hand; distinct = distinct abstract traces",
+        mandatory=dict(quick=['dead_dealer', 'dead_sb', 'gap', 'sitout_between', 'inhand_reserve', 'inhand_leave', 'participants_2', 'participants_6']),
+        assumptions=ASSUME_COMMON,
+    ),
+    "C05": dict(
+        parts=[dict(pkg="table", run="^TestC05$",
+                    quick=dict(shards=4, checks=150, timeout=300),
+                    thorough=dict(shards=16, checks=2500, timeout=1800))],
+        rule='cases = membership-heavy histories of 3-25 hands (arrivals before and after the first hand at every seat relative to the button, sitting-out players joining later, busts forced by short stacks, re-buys, departures, in-hand arrivals); oracle: three-valued eligibility model on the published button seats (must / must not / either for heads-up<->ring button jumps), continuity, at least two dealt in, bounded wait <= 3 hands; non-trivial = a hand where the dealt-in set differs from all seated players with chips, or a re-buy after a bust; distinct = distinct abstract traces',
+        mandatory=dict(quick=['newcomer_between', 'newcomer_outside', 'rebuy_after_bust', 'sitout_then_join', 'someone_waited_or_sat_out', 'waited_1']),
+        assumptions=ASSUME_COMMON,
+    ),
+    "C06": dict(
+        parts=[dict(pkg="table", run="^TestC06$",
+                    quick=dict(shards=4, checks=150, timeout=300),
+                    thorough=dict(shards=16, checks=2500, timeout=1800))],
+        rule='cases = default-rule histories weighted towards button configurations (live/dead dealer, live/dead SB, both dead, heads-up, 2..10 dealt in, sitting-out players between blinds, seat counts 2..10); oracle: validity predicates over the opened snapshot (bb label, sb/dealer labels, every dealt-in player labelled, no label twice, clockwise order from the BB = standard order for the slot count with dead entries removed), hand engine receives the same labels, next-BB order at settlement; non-trivial = a hand with a dead dealer or dead SB or slot count != dealt-in count; distinct = distinct abstract traces',
+        mandatory=dict(quick=['dead_dealer', 'dead_sb', 'hu', 'k_3', 'k_6', 'next_bb_checked', 'N_2', 'N_10']),
+        assumptions=ASSUME_COMMON,
+    ),
+    "C07": dict(
+        parts=[dict(pkg="table", run="^TestC07$",
+                    quick=dict(shards=4, checks=150, timeout=300),
+                    thorough=dict(shards=16, checks=2500, timeout=1800))],
+        rule='cases = histories of 2-15 hands with membership changes plus control operations at drawn moments: CloseTable inside the settled callback (continue delay), Close/Release after the gate was armed, repeated SetUpTableGame while the gate is pending or a hand runs; oracle: life-cycle automaton over every published status, game count +1 and fresh game id per opened hand, no open while unsettled, per-hand fields reset at every engine fence, no open after close/release; non-trivial = >=3 consecutive hands with a membership change or any control operation; distinct = distinct abstract traces',
+        mandatory=dict(quick=['close_in_settled_cb', 'closed_after_gate_armed', 'released_after_gate_armed', 'double_setup', 'setup_while_hand_runs', 'three_hands_with_change']),
+        assumptions=ASSUME_COMMON,
+    ),
+    "C08": dict(
+        parts=[dict(pkg="table", run="^TestC08$",
+                    quick=dict(shards=8, checks=80, timeout=300),
+                    thorough=dict(shards=16, checks=2500, timeout=1800))],
+        rule="cases = histories engineered for awkward continuations (short stacks, heads-up busts with bystanders, everybody but one busting, arrivals during the hand and while the gate is armed, settlement-finish signals from every subset/order of the expected players incl. none and from non-expected players, breaks); the harness issues nothing but the drawn signals between settlement and the next open; oracle: pause iff break or fewer players with chips than the minimum, otherwise gate armed by the engine and the next hand opens (at once or after the 2 s timeout) and is played out; non-trivial = a continuation whose participants differ from the previous hand's, a partial signal set, or a pause; distinct = distinct abstract traces",
+        mandatory=dict(quick=['signals_none', 'signals_some', 'signals_all', 'signals_extra', 'pause_min_players', 'pause_break', 'participants_changed', 'arrival_during_gate', 'all_but_one_bust']),
+        assumptions=ASSUME_COMMON,
+    ),
     "C10": dict(
         parts=[dict(pkg="table", run="^TestC10$",
                     quick=dict(shards=4, checks=150, timeout=300),
@@ -141,5 +181,11 @@ LEVELS["C12"] = _lv("Generated blind schedules with updates at ordered moments r
 LEVELS["C13"] = _lv("Generated fault plans through the public GameBackend interface; unchanged-on-failure, chain-integrity and differential pure-replay oracles.", "DESIGN.md section 3 C13", "fault-injecting property-based testing (rapid) with a differential replay oracle", "Only clean failures (error, no state) are injected.")
 LEVELS["C14"] = _lv("Counters compared with the harness's log of accepted actions, flag implications checked on every published snapshot.", "DESIGN.md section 3 C14", "stateful property-based testing (rapid) with an action-log reference model", "On this tree most chance flags are never set (validateGameStatisticGameState tests for the event 'Started'), so their implications hold vacuously; reported in DESIGN.md.")
 LEVELS["C15"] = _lv("Wall-clock bracket (no tolerance constant) on every turn deadline, exact arithmetic on extensions, cleared-at checks.", "DESIGN.md section 3 C15", "stateful property-based testing (rapid) with an interval oracle", "Second granularity: errors below the bracket width are invisible.")
+
+LEVELS["C02"] = _lv("Generated layouts and in-hand membership changes against a fixed index->player map observed through stacks, ids and the backend call log.", "DESIGN.md section 3 C02", "stateful property-based testing (rapid) with a relational oracle over published snapshots and the backend call log", "Stacks are drawn so that a swap is visible; identity is observed through ids and stacks only.")
+LEVELS["C05"] = _lv("Generated arrival/bust/re-buy histories against a three-valued eligibility model computed from the published button seats; heads-up<->ring button jumps are accepted either way.", "DESIGN.md section 3 C05", "stateful property-based testing (rapid) with a three-valued reference model", "Bounded wait is checked on histories of at most 25 hands; histories that reach button seats of a recorded C04 finding are excluded (counted).")
+LEVELS["C06"] = _lv("Validity predicates over every opened and settled snapshot of generated default-rule histories; the standard order table is written independently of position.go.", "DESIGN.md section 3 C06", "stateful property-based testing (rapid) with validity predicates", "Histories that reach button seats of a recorded C04 finding are excluded (counted).")
+LEVELS["C07"] = _lv("Life-cycle automaton and numbering/reset/no-open obligations over generated histories with control operations at deterministic moments.", "DESIGN.md section 3 C07", "stateful property-based testing (rapid) with a life-cycle automaton oracle", "Timing of the asynchronous trigger is sampled at deterministic moments plus scheduler noise; unset-blind levels (30 s retry loop) are not generated in the quick tier.")
+LEVELS["C08"] = _lv("Bounded-progress oracle on generated continuations: the harness issues only the drawn signals and requires pause-iff and the next hand to open and be played out.", "DESIGN.md section 3 C08", "stateful property-based testing (rapid) with pause-iff and bounded-progress oracles", "Liveness is bounded progress on generated histories (3 s beyond the longest armed timer); a refused rotation from the recorded C04 finding is reported as its own known finding.")
 
 NOT_APPLICABLE = []
